@@ -9,7 +9,8 @@ from vlib.runner import Result, SubCheck, Violation
 
 PROPERTY = "C08"
 LEVEL = "exploration"
-RULE = ("Model-based generated histories of add_arm / remove_arm / fit / partial_fit / warm_start / predict / "
+RULE = ("Histories may pass through an empty arm list (every arm removed before new ones are added); catalogues of up to 1030 arms. "
+        "Model-based generated histories of add_arm / remove_arm / fit / partial_fit / warm_start / predict / "
         "predict_expectations over every learning x neighbourhood policy pair, int / float / str / mixed labels, "
         "n_jobs 1..4, 19, 40 (threading; more workers than processors included), queries with 1..33 rows, Series queries, refits with another number of columns (context-free bandits with and without contexts), arm "
         "changes and queries before the first fit included. Invariant after every step: mab.arms equals the model's "
